@@ -17,17 +17,18 @@ git apply --check "$src/patch.diff" 2>>$log || { echo "$name: PATCH DOES NOT APP
 mkdir -p examples
 # unpatched demo must pass
 cp "$src/demo.rs" examples/demo.rs
-timeout 900 cargo run -q --offline --features multi-threaded,serialize --example demo >>$log 2>&1; clean_rc=$?
+rundemo() { if [ -f "$src/demo.sh" ]; then timeout 900 bash "$src/demo.sh" >>$log 2>&1; else timeout 900 cargo run -q --offline --features multi-threaded,serialize --example demo >>$log 2>&1; fi; }
+rundemo; clean_rc=$?
 git apply "$src/patch.diff"
 timeout 900 cargo build -q --offline >>$log 2>&1; b1=$?
 timeout 900 cargo build -q --offline --features multi-threaded,serialize >>$log 2>&1; b2=$?
-timeout 900 cargo run -q --offline --features multi-threaded,serialize --example demo >>$log 2>&1; mut_rc=$?
+rundemo; mut_rc=$?
 rm -f examples/demo.rs
 timeout 1800 cargo test -q --offline --workspace --no-fail-fast >>$log 2>&1; t1=$?
 echo "$name: clean_demo_rc=$clean_rc build_default=$b1 build_all=$b2 mutant_demo_rc=$mut_rc tests_default_rc=$t1"
 if [ $clean_rc -eq 0 ] && [ $b1 -eq 0 ] && [ $b2 -eq 0 ] && [ $mut_rc -ne 0 ] && [ $t1 -eq 0 ]; then
   mkdir -p /verif/seeded/$name
-  cp "$src/patch.diff" "$src/demo.rs" /verif/seeded/$name/
+  cp "$src/patch.diff" "$src/demo.rs" /verif/seeded/$name/; [ -f "$src/demo.sh" ] && cp "$src/demo.sh" /verif/seeded/$name/
   python3 - "$src/meta.json" /verif/seeded/$name/meta.json "$clean_rc" "$mut_rc" <<'PY'
 import json,sys
 m=json.load(open(sys.argv[1]))
